@@ -1,6 +1,7 @@
 package main
 
 import (
+	"math/big"
 	"fmt"
 	"go/types"
 	"strings"
@@ -99,11 +100,28 @@ func (f *Frame) intrinsic(name string, args []Val, rt types.Type) (Val, bool) {
 	case "strings.HasPrefix":
 		g.Assumptions["intrinsic: strings.HasPrefix(s,p) = len(p)<=len(s) && s[:len(p)]==p"] = true
 		s, p := args[0].S, args[1].S
+		if lit, ok := g.strLitText(p); ok && len(lit) <= 32 {
+			// a literal prefix: byte-wise (exact; Str has no extensionality axiom, so the negation of a
+			// Str equality would say nothing)
+			cs := []string{g.icmp("<=", g.idxLit(int64(len(lit))), app("gstr.len", s), true)}
+			for i := 0; i < len(lit); i++ {
+				cs = append(cs, eq(app("gstr.at", s, g.idxLit(int64(i))), g.intLit(big.NewInt(int64(lit[i])), tByte).S))
+			}
+			return g.boolVal(and(cs...)), true
+		}
 		sub := g.strSub(s, g.idxLit(0), app("gstr.len", p))
 		return g.boolVal(and(g.icmp("<=", app("gstr.len", p), app("gstr.len", s), true), eq(sub.S, p))), true
 	case "strings.HasSuffix":
 		g.Assumptions["intrinsic: strings.HasSuffix(s,p) = len(p)<=len(s) && s[len(s)-len(p):]==p"] = true
 		s, p := args[0].S, args[1].S
+		if lit, ok := g.strLitText(p); ok && len(lit) <= 32 {
+			cs := []string{g.icmp("<=", g.idxLit(int64(len(lit))), app("gstr.len", s), true)}
+			for i := 0; i < len(lit); i++ {
+				at := g.isub(app("gstr.len", s), g.idxLit(int64(len(lit)-i)))
+				cs = append(cs, eq(app("gstr.at", s, at), g.intLit(big.NewInt(int64(lit[i])), tByte).S))
+			}
+			return g.boolVal(and(cs...)), true
+		}
 		sub := g.strSub(s, g.isub(app("gstr.len", s), app("gstr.len", p)), app("gstr.len", s))
 		return g.boolVal(and(g.icmp("<=", app("gstr.len", p), app("gstr.len", s), true), eq(sub.S, p))), true
 	}
